@@ -18,18 +18,17 @@ COMMON_ASSUME = [
 
 PROPS = {
     "C02": {
-        "rules": ["R-IDGUARD", "R-ACCEPT", "R-ALPHAGUARD", "R-NOTFOUND", "R-SCANEXIT", "R-PURE-BASIC", "R-BYTEINDEX", "R-SENTINEL", "R-CMPEND", "R-SCANLEN", "R-PREDINDEX"],
+        "rules": ["R-IDGUARD", "R-ACCEPT", "R-ALPHAGUARD", "R-NOTFOUND", "R-SCANEXIT", "R-BYTEINDEX", "R-SENTINEL", "R-CMPEND", "R-SCANLEN", "R-PREDINDEX"],
         "explanation": "CFG edge-dominance rules: every use of the id in the 13 extract overrides is dominated by both range tests and the "
                        "failing path stores length 0 and returns NULL; in the six hash lookups an ID is returned only under a successful full "
                        "comparison, each probe is preceded by the occupied-cell test, the probe loop is bounded by the table size; XBW accepts only "
                        "under the terminator-label test; pattern bytes index occ[] only after the alphabet test (reaching definitions on the CFG); "
                        "a helper whose result callers test against NORESULT can return it. "
-                       "Added later: early scan exit, byte-indexed tables have 256 entries on every creation path, the all-ones sentinel is produced at the return width, comparators declare a match only at the end of the pattern, purity of locate/extract.",
+                       "Added later: early scan exit, byte-indexed tables have 256 entries on every creation path, the all-ones sentinel is produced at the return width, comparators declare a match only at the end of the pattern.",
         "decided": ["ID range guard dominates every memory-reaching use of id, incl. 0 and SIZE_MAX (R-IDGUARD)",
                     "no acceptance without comparison; empty cell ends the probe; bounded probe loop; XBW terminator test (R-ACCEPT)",
                     "alphabet test before occ[] for every pattern byte, in the function or by construction at every call site (R-ALPHAGUARD)",
                     "not-found protocol between search helpers and their callers (R-NOTFOUND)", "every in-bucket scan has the early exit its four siblings have (R-SCANEXIT)",
-                    "locate/extract keep no state between calls (R-PURE-BASIC)",
                     "tables indexed by an arbitrary byte value have >= 256 entries on every path that creates them, loaders included (R-BYTEINDEX)",
                     "the hash lookups' all-ones `not found` sentinel is produced at the width of their return type, so locate's `search()+1` wraps to NORESULT (R-SENTINEL)",
                     "comparators that take the pattern length report a match only where the end of the pattern has been observed (R-CMPEND)",
@@ -39,7 +38,7 @@ PROPS = {
         "assumptions": COMMON_ASSUME,
     },
     "C04": {
-        "rules": ["R-NOTFOUND", "R-WINDOW", "R-ALPHAGUARD", "R-BUCKET", "R-FMMAP", "R-SCANEXIT", "R-PURE-PREFIX", "R-CMPSIGN", "R-BSEARCH", "R-SCANSIGN", "R-BISECT", "R-IDRANGE", "R-EXTENT-FM", "R-CMPEND", "R-BYTEORDER"],
+        "rules": ["R-NOTFOUND", "R-WINDOW", "R-ALPHAGUARD", "R-BUCKET", "R-FMMAP", "R-SCANEXIT", "R-CMPSIGN", "R-BSEARCH", "R-SCANSIGN", "R-BISECT", "R-IDRANGE", "R-EXTENT-FM", "R-CMPEND", "R-BYTEORDER"],
         "explanation": "The structural half of prefix search: the not-found protocol of the in-bucket search helpers (all five front-coding kinds), "
                        "agreement between the located ID range and the window handed to the string iterator under that iterator class's own "
                        "first/end protocol (symbolic count = right-left+1, incl. the empty range), alphabet guard for absent bytes. "
@@ -47,7 +46,6 @@ PROPS = {
         "decided": ["searchPrefix-style helpers can report not-found where callers test for it (R-NOTFOUND)",
                     "extractPrefix yields exactly right-left+1 strings for the range locatePrefix computes; extractTable numElements (R-WINDOW)",
                     "bytes occurring in no member cannot index occ[] (R-ALPHAGUARD)",
-                    "locatePrefix/extractPrefix and the iterators they return write no dictionary state, static or borrowed memory: the result is a function of dictionary and pattern only (R-PURE-PREFIX)",
                     "three-way string comparators are oriented one way on all their paths (sign polarity of the pattern bytes in every returned value, R-CMPSIGN)",
                     "binary searches move the bound the comparator's orientation dictates, and in-bucket scans give up only once the stored string is larger (R-BSEARCH, R-SCANSIGN)",
                     "the left/right boundary bisections of prefix search cover the whole interval the main binary search left open, with the step forms of a closed resp. half-open interval (R-BISECT)",
@@ -59,14 +57,14 @@ PROPS = {
         "assumptions": COMMON_ASSUME,
     },
     "C05": {
-        "rules": ["R-CUMSUM", "R-DEDUP", "R-DUPSKIP", "R-SAMPLECOUNT", "R-STUB", "R-ALPHAGUARD", "R-PURE-SUBSTR", "R-EXTENT-FM", "R-STALESIZE", "R-SCANLEN"],
+        "rules": ["R-CUMSUM", "R-DEDUP", "R-DUPSKIP", "R-SAMPLECOUNT", "R-STUB", "R-ALPHAGUARD", "R-EXTENT-FM", "R-STALESIZE", "R-SCANLEN"],
         "explanation": "Only the de-duplication protocol and the configuration guard are decided: the occurrence array is sorted over exactly [a,a+n) "
                        "and carries the 0 sentinel at a[n] before a duplicate-skipping iterator is created, is allocated with n+1 entries, and the "
                        "BWTsampling==0 configuration is an effect-free stub. "
-                       "Added later: sibling agreement of the duplicate-skipping loops, sample-count agreement across allocation/save/load/conversion, stale container-size bounds, FM-index table extents and scan length, purity of the substring operations.",
-        "decided": ["sort-before-dedup over the exact range, sentinel store, allocation extent matches+1 (R-DEDUP)",
+                       "Added later: sibling agreement of the duplicate-skipping loops, sample-count agreement across allocation/save/load/conversion, stale container-size bounds, FM-index table extents and scan length.",
+        "decided": ["the cumulative pass over the FM-index occ table reaches its last saved entry (R-CUMSUM)",
+                    "sort-before-dedup over the exact range, sentinel store, allocation extent matches+1 (R-DEDUP)",
                     "BWTsampling==0 guard first, stub region returns null (R-STUB)", "absent bytes are rejected before indexing (R-ALPHAGUARD)",
-                    "locateSubstr/extractSubstr and the iterators they return write no dictionary state, static or borrowed memory (R-PURE-SUBSTR)",
                     "the FM-index tables (occ, alphabet, samples) are saved with the extent they are allocated with, so a loaded index is indexed within bounds like a built one (R-EXTENT-FM)",
                     "iterator bounds taken from container.size() are not made stale by a later shrink of the container (R-STALESIZE)",
                     "the scans that derive the FM-index / XBW alphabet and maximum symbol cover exactly the sequence handed to the wavelet-tree builder (R-SCANLEN)"],
@@ -74,18 +72,18 @@ PROPS = {
         "assumptions": COMMON_ASSUME,
     },
     "C01": {
-        "rules": ["R-STATE", "R-DERIVED", "R-INITCOVER", "R-MIRROR", "R-IDGUARD", "R-SELECTRANGE", "R-PROBE", "R-BUCKET", "R-FMMAP", "R-BYTEORDER", "R-PURE-BASIC", "R-SLOT", "R-CLAMP", "R-CMPSIGN", "R-BSEARCH", "R-SCANSIGN", "R-CHUNKINIT", "R-SCANLEN", "R-RESAVE-SCALAR", "R-VBYTE"],
+        "rules": ["R-STATE", "R-DERIVED", "R-INITCOVER", "R-MIRROR", "R-IDGUARD", "R-SELECTRANGE", "R-PROBE", "R-BUCKET", "R-FMMAP", "R-BYTEORDER", "R-SLOT", "R-CLAMP", "R-CMPSIGN", "R-BSEARCH", "R-SCANSIGN", "R-CHUNKINIT", "R-SCANLEN", "R-RESAVE-SCALAR", "R-VBYTE"],
         "explanation": "The clause `for the freshly built object and the reloaded one alike` is decided structurally: for every kind and both "
                        "creation paths, every field read by a query on an object of a class that path instantiates (rapid type analysis, virtual "
                        "calls resolved to final overriders of instantiated classes) is assigned by code reachable from that creation path, pointer "
                        "fields are not left NULL where operations dereference them unconditionally, and byte-indexed tables are filled over their "
                        "whole extent. Image/loader agreement (R-MIRROR) carries the state across save/load. "
-                       "Added after the seeded-change rounds: sign-polarity analysis of the three-way comparators and direction of every binary search / in-bucket scan, unsigned byte order, per-operation purity of locate/extract, block<->slot correspondence of the parallel build, the clamped bucket size, the chunk-scan start state, and scan-length agreement for the FM-index alphabet.",
-        "decided": ["built/loaded state parity for all 13 kinds x 2 creation paths (R-STATE)", "full initialisation of byte-indexed tables (R-INITCOVER)",
+                       "Added after the seeded-change rounds: sign-polarity analysis of the three-way comparators and direction of every binary search / in-bucket scan, unsigned byte order, block<->slot correspondence of the parallel build, the clamped bucket size, the chunk-scan start state, and scan-length agreement for the FM-index alphabet.",
+        "decided": ["a scalar member computed from the data by the building path and read by queries/getSize/save is not left at a constant on the load path: it is read back or recomputed (R-DERIVED)",
+                    "built/loaded state parity for all 13 kinds x 2 creation paths (R-STATE)", "full initialisation of byte-indexed tables (R-INITCOVER)",
                     "image carries every field load needs (R-MIRROR)", "extract range guard (R-IDGUARD)",
                     "insert and lookup walk the same probe sequence in all 8 double-hashing walks (R-PROBE)",
                     "ID <-> (bucket, offset) arithmetic is an inverse pair in all five front-coding kinds (R-BUCKET)", "FM-index row <-> ID mapping agrees at all five sites (R-FMMAP)",
-                    "locate/extract keep no state between calls (statics, dictionary fields), so an ID/string cannot depend on call history (R-PURE-BASIC)",
                     "in the block dictionary each finished block is stored in the slot reserved for it at submission, so parts[k] matches cut_samples[k]/starting_indexes[k] (R-SLOT)",
                     "the build loop and the queries use the same (clamped) bucket size (R-CLAMP)",
                     "three-way string comparators are oriented one way on all their paths (sign polarity of the pattern bytes in every returned value, R-CMPSIGN)",
@@ -99,12 +97,14 @@ PROPS = {
         "assumptions": COMMON_ASSUME,
     },
     "C07": {
-        "rules": ["R-STATE", "R-DERIVED", "R-INITCOVER", "R-EXTENT", "R-KILLUSE", "R-DANGLING", "R-ALPHAGUARD", "R-DEDUP", "R-IDGUARD", "R-SHIFT", "R-CLAMP", "R-ZEROFILL", "R-GROW", "R-SLACK", "R-ALLOCFORM", "R-LOCKSET", "R-BYTEINDEX", "R-REFCOUNT", "R-COUNTERWIDTH", "R-BUCKET", "R-PREDINDEX"],
+        "rules": ["R-STATE", "R-DERIVED", "R-FIXEDBUF", "R-INITCOVER", "R-EXTENT", "R-KILLUSE", "R-DANGLING", "R-ALPHAGUARD", "R-DEDUP", "R-IDGUARD", "R-SHIFT", "R-CLAMP", "R-ZEROFILL", "R-GROW", "R-SLACK", "R-ALLOCFORM", "R-LOCKSET", "R-BYTEINDEX", "R-REFCOUNT", "R-COUNTERWIDTH", "R-BUCKET", "R-PREDINDEX"],
         "explanation": "Structural preconditions of memory safety, each a necessary condition with confirmed instances: no operation consults state the "
                        "creation path never set, saved extents equal allocated extents, nothing reachable from a dictionary is freed by an operation or "
                        "left dangling by a loader, pattern bytes are range-checked before indexing, duplicate iterators have their sentinel, ids are "
                        "guarded, shifts stay below the operand width over the whole legal domain, bucket size 0/1 cannot reach the arithmetic.",
-        "decided": ["no uninitialised/NULL state is consulted (R-STATE, R-INITCOVER, R-ZEROFILL)", "no over-read at save (R-EXTENT)",
+        "decided": ["a scalar member computed from the data by the building path and read by queries/getSize/save is not left at a constant on the load path: it is read back or recomputed (R-DERIVED)",
+                    "stores into fixed-size arrays through a run-time index have some bound on the way to the store (R-FIXEDBUF; only the absence of any bound is reported)",
+                    "no uninitialised/NULL state is consulted (R-STATE, R-INITCOVER, R-ZEROFILL)", "no over-read at save (R-EXTENT)",
                     "no use after free across API histories, no dangling loader state (R-KILLUSE, R-DANGLING)",
                     "index guards: alphabet, id range, sentinel (R-ALPHAGUARD, R-IDGUARD, R-DEDUP)", "no undefined shift (R-SHIFT)", "clamped bucket size (R-CLAMP)",
                     "growth guards re-test after growing (R-GROW, loop form)", "PFC guard slack covers the largest appended extent for every length / shared prefix (R-SLACK)", "release form matches allocation form for every pointer field (R-ALLOCFORM)",
@@ -146,7 +146,8 @@ PROPS = {
         "explanation": "For the packed integer array the shift amounts of get_field/set_field/maxVal are evaluated from the source expressions over the whole "
                        "finite domain (width 1..64 x in-word offset 0..63) under the guards that dominate each shift: exact. Save/load agreement and "
                        "allocation extents for LogSequence, DAC_VLS, DAC_BVLS; zero-fill before read-modify-write packing.",
-        "decided": ["no shift by >= operand width for any width 1..64 and offset, incl. fields straddling a word (R-SHIFT)",
+        "decided": ["a scalar member computed from the data by the building path and read by queries/getSize/save is not left at a constant on the load path: it is read back or recomputed (R-DERIVED-CODEC, DAC sequences and packed arrays)",
+                    "no shift by >= operand width for any width 1..64 and offset, incl. fields straddling a word (R-SHIFT)",
                     "LogSequence / DAC_VLS / DAC_BVLS survive save/load structurally (R-MIRROR, R-EXTENT)", "packed arrays are filled before set_field/bitset (R-ZEROFILL)", "VByte encoder/decoder (both copies) agree on group width, mask, terminator bit and threshold, and no decoder loop bound cuts off the groups a 32-bit value needs (R-VBYTE)", "set_field clears before it sets (R-SETFIELD)",
                     "no save writes a data member through a narrower scalar type than the member has (R-NARROW)",
                     "no length / size handed to a container is counted in a local narrower than 32 bits (R-COUNTERWIDTH)"],
@@ -154,14 +155,14 @@ PROPS = {
         "assumptions": COMMON_ASSUME,
     },
     "C03": {
-        "rules": ["R-DERIVED-ORDER", "R-BUCKET", "R-FMMAP", "R-NOSORT", "R-BYTEORDER", "R-PURE-RANK", "R-CLAMP", "R-CMPSIGN", "R-BSEARCH", "R-SCANSIGN", "R-CMPEND", "R-SCANLEN", "R-RESAVE-SCALAR", "R-VBYTE"],
+        "rules": ["R-DERIVED-ORDER", "R-BUCKET", "R-FMMAP", "R-NOSORT", "R-BYTEORDER", "R-CLAMP", "R-CMPSIGN", "R-BSEARCH", "R-SCANSIGN", "R-CMPEND", "R-SCANLEN", "R-RESAVE-SCALAR", "R-VBYTE"],
         "explanation": "Order preservation decided structurally: rank operations are the identity / delegate to extract in the seven order-preserving "
                        "kinds, ID arithmetic is consistent with consuming the input in order, FM-index row mapping agrees, and no builder of an "
                        "order-preserving kind reorders its input (no sort reachable on their build paths). "
-                       "Added later: unsigned byte order, comparator orientation and search direction (sign-polarity analysis), clamp semantics, match-only-at-end-of-pattern, purity of the rank operations, FM-index scan length.",
-        "decided": ["locateRank is the identity and extractRank delegates to extract (R-BUCKET rank part)", "bucket arithmetic (R-BUCKET)",
+                       "Added later: unsigned byte order, comparator orientation and search direction (sign-polarity analysis), clamp semantics, match-only-at-end-of-pattern, FM-index scan length.",
+        "decided": ["a scalar member computed from the data by the building path and read by queries/getSize/save is not left at a constant on the load path: it is read back or recomputed (R-DERIVED-ORDER, the order-preserving kinds)",
+                    "locateRank is the identity and extractRank delegates to extract (R-BUCKET rank part)", "bucket arithmetic (R-BUCKET)",
                     "FM-index row <-> ID mapping (R-FMMAP)", "no sort on the build path of order-preserving kinds (R-NOSORT)", "comparators order bytes as unsigned, in int (R-BYTEORDER)",
-                    "locateRank/extractRank keep no state between calls (R-PURE-RANK)",
                     "the build loop and the queries use the same (clamped) bucket size, else IDs stop being ranks (R-CLAMP)",
                     "three-way string comparators are oriented one way on all their paths (sign polarity of the pattern bytes in every returned value, R-CMPSIGN)",
                     "binary searches move the bound the comparator's orientation dictates, and in-bucket scans give up only once the stored string is larger (R-BSEARCH, R-SCANSIGN)",
@@ -180,7 +181,9 @@ PROPS = {
                        "WaveletTreeNoptrs, their nodes, coders and mappers). The core of the property - rank/select/access equal their definitions - "
                        "is value-level and NOT decided. "
                        "Added later: const query methods are effect-free (MOD summaries), non-image fields are related to image values through every constructor's definition, the RRR table's reference count discipline, no narrowing writes.",
-        "decided": ["save/load element-by-element agreement of every bundled class in the cone (R-MIRROR)", "allocation = saved extent (R-EXTENT)",
+        "decided": ["a scalar member computed from the data by the building path and read by queries/getSize/save is not left at a constant on the load path: it is read back or recomputed (R-DERIVED-CDS, libcds classes)",
+                    "in-place cumulative-count passes over symbol-count tables reach the last entry used afterwards (R-CUMSUM)",
+                    "save/load element-by-element agreement of every bundled class in the cone (R-MIRROR)", "allocation = saved extent (R-EXTENT)",
                     "family dispatchers have an arm for every persisted class and the right tag (R-DISPATCH)", "save writes nothing but the stream (R-SAVEPURE)",
                     "const query methods of the bundled structures write no object state and no global, so an answer cannot depend on earlier queries (R-CONSTPURE)",
                     "no save writes a data member through a narrower scalar type than the member has (R-NARROW)",
@@ -190,12 +193,14 @@ PROPS = {
         "assumptions": COMMON_ASSUME,
     },
     "C20": {
-        "rules": ["R-DERIVED-RP", "R-RPZERO", "R-RPWIDTH", "R-RPGAP", "R-MIRROR", "R-NARROW", "R-BACKPTR"],
+        "rules": ["R-DERIVED-RP", "R-FIXEDBUF", "R-RPZERO", "R-RPWIDTH", "R-RPGAP", "R-MIRROR", "R-NARROW", "R-BACKPTR"],
         "explanation": "Structural conditions of the Re-Pair contract: who may raise a pair frequency and under which guard (terminator exclusion), "
                        "purge-before-extract on every path, identifier width computed as bits(rules+terminals) at every sizing site, and agreement of the "
                        "gap-pointer encoding between the compressor (writer) and the five compaction loops (readers). The grammar's image is covered by R-MIRROR. "
                        "Added later: back-pointer pairing in the compressor's hash table and frequency arrays, no narrowing writes of grammar fields, writer early returns.",
-        "decided": ["no rule can contain symbol 0: guard dominates the only increment, purge precedes every extraction (R-RPZERO)",
+        "decided": ["a scalar member computed from the data by the building path and read by queries/getSize/save is not left at a constant on the load path: it is read back or recomputed (R-DERIVED-RP, the Re-Pair grammar)",
+                    "the rule-expansion code stores into no fixed-size buffer without a bound (R-FIXEDBUF)",
+                    "no rule can contain symbol 0: guard dominates the only increment, purge precedes every extraction (R-RPZERO)",
                     "identifier storage is sized with bits(rules+terminals) at every site (R-RPWIDTH)",
                     "gap pointers: writer -t-1, readers -(v+1), loops advance (R-RPGAP)", "grammar survives save/load structurally (R-MIRROR)",
                     "no save writes a data member through a narrower scalar type than the member has (R-NARROW)",
@@ -204,7 +209,7 @@ PROPS = {
         "assumptions": COMMON_ASSUME,
     },
     "C13": {
-        "rules": ["R-OUTLEN", "R-WINDOW", "R-DEDUP", "R-DUPSKIP", "R-FMMAP", "R-STUB", "R-QUERYPURE", "R-IDRANGE", "R-STALESIZE", "R-CHUNKINIT"],
+        "rules": ["R-OUTLEN", "R-WINDOW", "R-DEDUP", "R-DUPSKIP", "R-FMMAP", "R-STUB", "R-IDRANGE", "R-STALESIZE", "R-CHUNKINIT"],
         "explanation": "Iterator protocol rules: every next() stores the length on every path to a non-null return and advances a field that "
                        "hasNext() reads (or consumes its work list) on every path; windows given at every extractTable/extractPrefix site match "
                        "the class protocol; duplicate-skipping iterators never read past their array (sentinel + extent); iterator steps write "
@@ -212,7 +217,6 @@ PROPS = {
                        "Added later: duplicate-skip loops, FM row mapping of the iterators, the contiguous ID iterator's range, stale size bounds, the chunk-scan start state.",
         "decided": ["length reported and cursor advanced on every path (R-OUTLEN)", "window = numElements / right-left+1 at every construction site (R-WINDOW)",
                     "sentinel and extent for duplicate skipping (R-DEDUP)", "XBW::extractTable is an effect-free stub (R-STUB)",
-                    "iterator steps do not write borrowed dictionary storage (R-QUERYPURE)",
                     "the contiguous ID iterator yields exactly [left,right] and nothing for the (NORESULT,NORESULT) pair (R-IDRANGE)",
                     "iterator bounds taken from container.size() are not made stale by a later shrink of the container (R-STALESIZE)",
                     "every chunk scan handed to the Huffman/Hu-Tucker chunk decoder starts from the same state as its siblings (R-CHUNKINIT)"],
@@ -226,7 +230,8 @@ PROPS = {
                        "ordered trees of stream elements whose sizes are symbolic expressions over earlier image values, and compared "
                        "element by element (canonical polynomial form, else exhaustive evaluation of the two source expressions on a grid). "
                        "Allocation extents are compared with saved counts, tag dispatchers with the tags the savers write.",
-        "decided": ["reader consumes exactly what the writer emits: width, count, nested class, guards, loops, field identity (R-MIRROR)",
+        "decided": ["a scalar member computed from the data by the building path and read by queries/getSize/save is not left at a constant on the load path: it is read back or recomputed (R-DERIVED)",
+                    "reader consumes exactly what the writer emits: width, count, nested class, guards, loops, field identity (R-MIRROR)",
                     "saved byte count equals allocated byte count in every building constructor (R-EXTENT)",
                     "kind tags: distinct, checked before anything else, generic loader arm per kind (R-TAGS)",
                     "libcds/Hash family dispatchers: arm per persisted class, tag equals the tag its save writes, peek restores position, no other seeking (R-DISPATCH)",
@@ -242,7 +247,7 @@ PROPS = {
         "assumptions": COMMON_ASSUME,
     },
     "C08": {
-        "rules": ["R-SAVEPURE", "R-KILLUSE", "R-DANGLING", "R-TAGSELF", "R-RESAVE", "R-EXTENT", "R-PADDING", "R-ZEROFILL", "R-NONDET", "R-STATE", "R-INITEXTENT"],
+        "rules": ["R-DERIVED", "R-SAVEPURE", "R-KILLUSE", "R-DANGLING", "R-TAGSELF", "R-RESAVE", "R-EXTENT", "R-PADDING", "R-ZEROFILL", "R-NONDET", "R-STATE", "R-INITEXTENT"],
         "explanation": "Interprocedural effect analysis (MOD/FREE summaries over access-path regions with pointer roots, fixpoint over "
                        "the call graph, virtual calls by class hierarchy) shows that the call closure of every save in the persisted cone "
                        "writes only the stream and frees nothing; tag identity, element-to-field restoration and extent/padding rules show "
